@@ -158,7 +158,15 @@ fn record_sampler<S: Tok + PartialEq + num_traits::ToPrimitive>(seed: u64, n_cha
     for (c, chain) in sampler.chains.iter_mut().enumerate() {
         chain.target = new_cond::<S>(&logs[c], vec![], seed + c as u64);
     }
-    let r = catch(|| sampler.run(steps, 0));
+    // two calls on the same sampler: the chains keep their own (stateful) conditionals across calls
+    let r = catch(|| {
+        let first = sampler.run(steps - steps / 2, 0);
+        let second = sampler.run(steps / 2, 0);
+        match (first, second) {
+            (Ok(a), Ok(b)) => ndarray::concatenate(ndarray::Axis(1), &[a.view(), b.view()]).map_err(|e| e.to_string()),
+            (a, b) => Err(format!("{:?} {:?}", a.err(), b.err())),
+        }
+    });
     for c in 0..n_chains {
         out.push(&json!({"e": "init", "type": S::NAME, "state": inits[c].iter().map(|x| x.tok()).collect::<Vec<_>>()}));
         let calls = logs[c].lock().unwrap().clone();
@@ -173,6 +181,7 @@ fn record_sampler<S: Tok + PartialEq + num_traits::ToPrimitive>(seed: u64, n_cha
                 }
             }
         }
+        out.push(&json!({"e": "ran", "sweeps": steps}));
     }
     if let Err(e) = r {
         out.push(&json!({"e": "panic", "msg": e}));
